@@ -86,8 +86,12 @@ fn corpus(tier: Tier) -> Vec<(String, bool)> {
     take("C02", n, &|c| c.family.contains("twotypes") || c.family.contains("altpair") || c.family == "override", true);
     take("C02", n, &|c| c.family == "fields", false);
     take("C05", n, &|c| c.note == "mask7", true);
+    // a later multi-field part re-binding a field of an earlier part (temporaries in the sequence template)
+    take("C02", n, &|c| c.family.starts_with("ctx/two") || c.family.starts_with("ctx/optpair") || c.family.starts_with("ctx/twice"), true);
     take("C13", n, &|_| true, false);
     take("C09", n, &|_| true, false);
+    out.push(("@export Pairs = keys : K '=' values : V { ',' keys : K '=' values : V } $ ;\n@string K = 'k' ;\n@string V = 'v' ;\n".into(), true));
+    out.push(("@export R = f : K ( f : K g : V ) [ g : V f : K ] ;\n@string K = 'k' ;\n@string V = 'v' ;\n".into(), true));
     // many independent multi-type fields, memoized and exported rules in one grammar: iteration-order
     // nondeterminism would show here with overwhelming probability
     let mut rules = Vec::new();
